@@ -299,8 +299,11 @@ class Sim:
                 'wn.config.data_directory = %r; %s' % (_world.REPO, W.node(W.cur), call))
         env = dict(os.environ)
         env['PYTHONDONTWRITEBYTECODE'] = '1'
-        p = subprocess.run([sys.executable, '-c', code], capture_output=True, text=True,
-                           timeout=120, env=env)
+        script = os.path.join(W.workdir('external-%d' % self.step), 'op.py')
+        with open(script, 'w', encoding='utf-8') as fh:      # argv may not be encodable
+            fh.write('# -*- coding: utf-8 -*-\n' + code.replace('; ', '\n') + '\n')
+        p = subprocess.run([sys.executable, script], capture_output=True, timeout=120, env=env)
+        p.stderr = p.stderr.decode('utf-8', 'replace')
         self.last = {}
         self.probe('external-process-op')
         if inner['op'] == 'add':
